@@ -7,6 +7,24 @@ BASE_CMD = ("cd /repo && /venv/bin/python -m pytest -ra -q -p no:cacheprovider -
 TRUST = ("Trusted: CPython, numpy, the reference model in pmc/ref.py (exact rationals, self-tested against the "
          "documentation's worked examples), the enumerators' bounds as stated in the evidence file.")
 CHECKS = {
+ 'C06': dict(
+    technique="exhaustive enumeration of the finite conversion table (substance kinds x unit pairs x prefixes x configurations) against an exact-rational reference",
+    text="All 41 x 41 prefixed unit pairs x 11 substances x 6 amounts of Unit.convert_from (factor, zero/reject cells, linearity, round trip), "
+         "composition over 6 x 41 x 6 unit triples, the string front end and the storage conversions, under 3/9 default-density configurations in separate processes.",
+    note="Amounts and substance parameters come from fixed tables (linearity extends the factor check to all amounts up to float error). " + TRUST,
+    ref="DESIGN.md section 4 C06"),
+ 'C13': dict(
+    technique="exhaustive enumeration of the documented selector grammar on all small plate shapes and labelings against an independent resolver",
+    text="Every selector expression of the documented grammar on every plate R x C (R, C <= 3 quick / 4 thorough) under 3 labelings, tall plates for labels beyond 'Z', "
+         "and a reject family; wells, order, shape and size compared with a resolver written from the documentation (~0.38 M / 2 M selectors).",
+    note="Don't-care forms (step <= 0, start after stop, bool indices, empty/duplicate lists) are executed but not judged. " + TRUST,
+    ref="DESIGN.md section 4 C13, Appendix B"),
+ 'C14': dict(
+    technique="exhaustive enumeration of the quantity/concentration string grammars against an independent parser, plus equivalence classes pushed through the API",
+    text="All value x prefix x base quantity strings, all value x numerator x optional count x denominator concentration strings, M/m with every prefix, percent forms under "
+         "2-3 settings of default_weight_volume_units, ~150 malformed inputs, and equivalence classes through create_solution, dilute, create_solution_from, Container(), transfer, fill_to.",
+    note="Parsed concentrations are compared at the documented internal precision; white-space variants and the documented-but-unimplemented 'p' prefix are don't-care. " + TRUST,
+    ref="DESIGN.md section 4 C14"),
  'C01': dict(
     technique="explicit-state exploration of the implementation: BFS over operation histories with canonical-state hashing; invariant (conservation + frame) on every transition",
     text="Every transfer reachable by the bounded exhaustive enumeration (all ordered pairs of source/destination forms incl. same-plate "
